@@ -25,6 +25,8 @@ ASSUMPTIONS = [
     "a silent answer is indistinguishable from an unimplemented location: MemoryLocationNotImplemented (single read) / value omitted (read_all)",
     "'not left latched' is judged on reads that return normally; a bank left latched after read_all raised ResponseError is recorded as an observation",
 ]
+SANITY = ["read_all_runs", "read_all_runs_with_tick", "read_all_runs_with_fault", "read_all_runs_latched",
+          "single_reads_with_fault", "single_reads_raising"]
 BOUNDS = {"quick": "single reads: 3 images, 1 fault; read_all: 2 images, d<=1", "thorough": "single reads: 6 images, holes at every value location, 1 fault; read_all: 4 images, d<=2 on banks with <= 16 locations, d<=1 otherwise with all last-location boundaries"}
 
 GEAR_ADDR, DEV_ADDR = 3, 5
@@ -109,6 +111,10 @@ def expected_single(h, row):
 
 
 def judge_single(res, cfg, h, row, kind, val, mode):
+    if h.injected:
+        observe(res, "single_reads_with_fault")
+    if kind == "raise":
+        observe(res, "single_reads_raising")
     from dali.exceptions import MemoryLocationNotImplemented, ResponseError
     case = dict(cfg, t="single", mode=mode)
     name = row[1]
@@ -166,6 +172,13 @@ def run_single(cfg, ch):
 
 
 def judge_all(res, cfg, h, kind, val, n):
+    observe(res, "read_all_runs")
+    if h.nticks:
+        observe(res, "read_all_runs_with_tick")
+    if h.injected:
+        observe(res, "read_all_runs_with_fault")
+    if h.latched_at is not None:
+        observe(res, "read_all_runs_latched")
     from dali.exceptions import MemoryLocationNotImplemented, ResponseError
     vals = lib_values()
     bname = cfg["bank"]
